@@ -4,6 +4,7 @@ import (
 	"bytes"
 	"errors"
 	"fmt"
+	"io"
 
 	"fgverif/gen"
 	"fgverif/impl"
@@ -198,10 +199,16 @@ func (c12) Run(c *mon.Ctx, i int) {
 	}
 	rsink := &Sink{}
 	pv, st = mon.Safe(func() {
-		if state == "double-reset" {
-			w.Reset(&Sink{})
+		// a third of the cases hand the destinations over by value (a struct type
+		// that is not comparable), as C16 does
+		var dst0, dst1 io.Writer = &Sink{}, rsink
+		if i%3 == 2 {
+			dst0, dst1 = valSink{s: &Sink{}}, valSink{s: rsink}
 		}
-		w.Reset(rsink)
+		if state == "double-reset" {
+			w.Reset(dst0)
+		}
+		w.Reset(dst1)
 	})
 	if pv != nil {
 		desc["stack"] = st
